@@ -10,9 +10,10 @@ From BD.Hist Require Import GoMatch Model SModel Spec ProofsLib ProofsStore Proo
 Open Scope string_scope.
 Open Scope list_scope.
 
-(* the canonical key universe of a history: every DAG x every (stamp, request id cut at 8) x {plain, compacted} *)
+(* the canonical key universe of a history: every DAG x every (stamp, request id cut at 8) x {plain, compacted, temporary copy of the compacted} *)
 Definition univ (D : list string) (runs : list (string * string)) : list skey :=
-  flat_map (fun d => flat_map (fun sr => [mkkey d (fst sr) (snd sr) false; mkkey d (fst sr) (snd sr) true]) runs) D.
+  flat_map (fun d => flat_map (fun sr => [mkkey d (fst sr) (snd sr) false; mkkey d (fst sr) (snd sr) true;
+                                          tmpk (mkkey d (fst sr) (snd sr) true)]) runs) D.
 
 Section C.
 Variable loc : string.
